@@ -7,7 +7,7 @@ Definition has_unwrap (e : err) : bool :=
   match e with
   | Wrap _ (WUser UWCause _ _) _ => false
   | Wrap _ _ _ | Second _ _ _ | OWrap _ _ _ _ _ => true
-  | Leaf _ (LFmtWrapNil _) => true        (* returns nil *)
+  | Leaf _ (LFmtWrapNil _) | Leaf _ (LUser ULDual _ _ _) => true        (* returns nil *)
   | _ => false
   end.
 
